@@ -193,6 +193,11 @@ func QuantileCI(n int, q, confidence float64) QuantileCIResult {
 		// Use the normal approximation.
 		norm := samp.NormalApprox()
 		alpha := (1 - confidence) / 2
+		if alpha > 0.5 {
+			// A confidence of zero or less asks for no
+			// more than the center of the distribution.
+			alpha = 0.5
+		}
 
 		// Find the center "confidence" weight of the
 		// distribution.
@@ -218,6 +223,12 @@ func QuantileCI(n int, q, confidence float64) QuantileCIResult {
 		}
 		l = floorInt(math.Floor(l1-0.5)+0.5) + 1
 		r = floorInt(math.Ceil(r1-0.5)+0.5) + 1
+		if r <= l {
+			// [l1, r1] is a single point on a band
+			// boundary. Keep the bucket below it so
+			// the interval is never empty.
+			l = r - 1
+		}
 
 		if debug {
 			fmt.Printf("  [%v,%v] rounds to [%v,%v]\n", l1, r1, l, r)
@@ -243,7 +254,7 @@ func QuantileCI(n int, q, confidence float64) QuantileCIResult {
 		if debug {
 			fmt.Printf("  unbiased %v, biased %v\n", res.Confidence, cdf(l, rBiased))
 		}
-		if aBiased := cdf(l, rBiased); aBiased >= confidence && aBiased < res.Confidence {
+		if aBiased := cdf(l, rBiased); rBiased > l && aBiased >= confidence && aBiased < res.Confidence {
 			if debug {
 				fmt.Printf("  taking biased\n")
 			}
